@@ -219,7 +219,7 @@ def gen_apply(tier, rng, n):
                 out.append({"op": "x_apply", "fn": fn, "level": rng.choice(["ops", "session", "field", "h5field"] if fn in SRC_FNS else ["ops", "session"]),
                             "col": col, "spans": sp, "sdtype": rng.choice(["int32", "int64"]), "_nan_at": where})
     for _ in range(n):
-        m = rng.choice([1, 2, 3, rng.randrange(4, 12), rng.randrange(12, 40)])
+        m = rng.choice([0, 1, 1, 2, 3, rng.randrange(4, 12), rng.randrange(4, 12), rng.randrange(12, 40)])
         level = rng.choice(["ops", "ops_dest", "session", "session_dest", "field", "h5field", "field_target", "field_inplace", "filter_form"])
         fn = rng.choice(SRC_FNS + IDX_FNS + NOSRC_FNS)
         if level in ("field", "h5field", "field_target", "field_inplace"):
@@ -233,12 +233,12 @@ def gen_apply(tier, rng, n):
             if col["k"] == "fixed" and fn in IDX_FNS:
                 fn = rng.choice(SRC_FNS)          # argmin / argmax of a bytes array exists in neither mode
         sdt = rng.choice(INT_DTYPES if rng.random() < 0.5 else ["int32", "int64"])
-        sp = rand_spans(rng, m, empty=(level == "filter_form" and rng.random() < 0.6))
+        sp = rand_spans(rng, m, empty=(level == "filter_form" and rng.random() < 0.6)) if m else [0]      # an empty column has no span
         if bounds(sdt)[1] < m:
             sdt = "int32"
         out.append({"op": "x_apply", "fn": fn, "level": level, "col": col, "spans": sp, "sdtype": sdt,
                     "sform": rng.choice(["ndarray", "ndarray", "field", "h5field"]) if level.startswith("field") or level == "h5field" else "ndarray",
-                    "tform": rng.choice(["ndarray"] * 8 + ["field"] * 5 + ["list"]) if level.startswith("session") else "ndarray"})
+                    "tform": rng.choice(["ndarray"] * 8 + ["field"] * 4 + ["h5field"] * 2 + ["list"]) if level.startswith("session") else "ndarray"})
     # spans of a narrow dtype whose LAST boundary is the dtype's largest value
     for sdt, top in (("int8", 127), ("uint8", 255)) + ((("int16", 32767), ("uint16", 65535)) if tier != "quick" else ()):
         for fn in pick(rng, SRC_FNS + IDX_FNS + NOSRC_FNS, 3 if tier == "quick" else 9):
@@ -395,7 +395,8 @@ def gen_map(tier, rng, n):
             ent = "safe"
         out.append({"op": "x_map", "src": src, "map": mp, "inv": inv, "cs": rng.choice([1, 2, 3, 1 << 20]),
                     "mdtype": "int64" if inv > 2 ** 31 else rng.choice(["int32", "int64"]), "entry": ent,
-                    "empty": rng.choice([None, None, "py", "np", "0d"]), "invform": rng.choice(["py", "py", "np", "0d"])})
+                    "empty": rng.choice([None, None, "py", "np", "0d"]), "invform": rng.choice(["py", "py", "np", "0d"]),
+                    "csform": rng.choice(["py", "py", "np", "0d"])})
     return out
 
 
@@ -415,7 +416,8 @@ def gen_merge(tier, rng, n):
             hints = [None, None, None, None]
         out.append({"op": "x_merge", "lk": lk, "rk": rk, "left": [any_col(rng, len(lk["v"])) for _ in range(rng.choice([1, 2]))],
                     "right": [any_col(rng, len(rk["v"])) for _ in range(rng.choice([1, 2]))],
-                    "how": rng.choice(["left", "right", "inner", "outer"]), "hints": hints, "cs": rng.choice([1, 2, 3, 1 << 20])})
+                    "how": rng.choice(["left", "right", "inner", "outer"] * 5 + ["cross"]), "hints": hints, "cs": rng.choice([1, 2, 3, 1 << 20]),
+                    "keyform": rng.choice(["name"] * 9 + ["field"]), "subset": rng.random() < 0.3})     # (a Field as key raises TypeError today, in both modes)
     return out
 
 
@@ -468,6 +470,11 @@ def gen_groupby(tier, rng, n):
 
 def gen_aggregate(tier, rng, n):
     out = []
+    for where in ("first", "middle", "last"):
+        for dt in FLOAT_DTYPES if tier != "quick" else [rng.choice(FLOAT_DTYPES)]:
+            col, sp = grouped_float(rng, dt, where)
+            out.append({"op": "x_aggregate", "fn": rng.choice(["min", "max"]), "index": {"k": "num", "dt": "int16", "v": [5, 5, 5, 6, 9, 9, 9]}, "iform": "ndarray",
+                        "tform": rng.choice(["ndarray", "field"]), "target": col, "dest": rng.random() < 0.4, "_nan_at": where})
     for _ in range(n):
         m = rng.choice([1, 2, rng.randrange(3, 14)])
         idx = any_col(rng, m, kinds=("num", "num", "fixed", "indexed"), dts=NUM_DTYPES)
@@ -1010,7 +1017,9 @@ def do_apply(e, case):
             r = getattr(s, name)(sp, dest)
         else:
             tgt = data
-            if case.get("tform") == "field":
+            if case.get("tform") == "h5field":
+                tgt = frame_of(e, [col])["c0"]
+            elif case.get("tform") == "field":
                 tgt = mem_field(e, col)
             elif case.get("tform") == "list":
                 tgt = data.tolist()
@@ -1167,10 +1176,12 @@ def do_map(e, case):
     mf = fields.NumericMemField(s, case["mdtype"])
     mf.data.write(m)
     df_ = sf.create_like()
+    cs = case["cs"]
+    cs = np.int64(cs) if case.get("csform") == "np" else np.array(cs, dtype="int64") if case.get("csform") == "0d" else cs
     if ent == "stream_indexed":
-        ops.ordered_map_valid_indexed_stream(sf, mf, df_, invalid=inv, chunksize=case["cs"])
+        ops.ordered_map_valid_indexed_stream(sf, mf, df_, invalid=inv, chunksize=cs)
     else:
-        ops.ordered_map_valid_stream(sf, mf, df_, invalid=inv, chunksize=case["cs"])
+        ops.ordered_map_valid_stream(sf, mf, df_, invalid=inv, chunksize=cs)
     return cv(e, df_)
 
 
@@ -1185,8 +1196,10 @@ def do_merge(e, case):
     h = case["hints"]
     set_chunks(e, case["cs"])
     try:
-        e["dataframe"].merge(ldf, rdf, ddf, "k", "k", how=case["how"], hint_left_keys_ordered=h[0], hint_left_keys_unique=h[1],
-                             hint_right_keys_ordered=h[2], hint_right_keys_unique=h[3], chunk_size=case["cs"])
+        lon, ron = ("k", "k") if case.get("keyform", "name") == "name" else (ldf["k"], rdf["k"])
+        lf, rf = (["l0"], ["r0"]) if case.get("subset") else (None, None)
+        e["dataframe"].merge(ldf, rdf, ddf, lon, ron, left_fields=lf, right_fields=rf, how=case["how"], hint_left_keys_ordered=h[0],
+                             hint_left_keys_unique=h[1], hint_right_keys_ordered=h[2], hint_right_keys_unique=h[3], chunk_size=case["cs"])
     finally:
         set_chunks(e, 1 << 20)
     out = frame_out(e, ddf)
